@@ -33,6 +33,17 @@ def run(ctx):
         "file creation times are injected (os.stat patched inside cache_manager) so that the clock can be controlled",
     ]
     with core.Lock():
+        # T-tie: the files / size / age branches of DatastoreCacheManager._expire_cache are translated from the working tree into
+        # Gen/CachePy.lean; C17.Translated.expire_*_eq identify them with the model the bound theorems are about
+        import sys as _sys
+
+        _sys.path.insert(0, os.path.join(core.VERIF, "translate"))
+        try:
+            import gen_cache
+
+            gen_cache.generate(core.GEN_DIR)
+        except Exception as e:  # Untranslatable or anything else: the tie is broken, the searches below still run
+            ctx.broken.append(f"translation: DatastoreCacheManager._expire_cache: {type(e).__name__}: {e}")
         built = core.lean_build(ctx, LEAN_TARGETS)
         if built:
             core.lean_audit(ctx, ["ButlerModel.Props.C17"])
